@@ -682,8 +682,8 @@ func Run(c *core.Ctx) {
 	c.Note("functions", fmt.Sprintf("%d bridged functions (generated stdlib + synthetic)", len(ts)))
 	U := len(universe)
 	n3 := vecCount(U, 3)
-	n4 := c.Pick(1500, 20000)
-	nwf := c.Pick(2500, 40000)
+	n4 := c.Pick(1500, 100000)
+	nwf := c.Pick(2500, 200000)
 	outcome := map[string]int64{}
 	for _, tg := range ts {
 		stream := "adapter-" + tg.name
@@ -771,7 +771,7 @@ func (h *harness) throughECAL(ts []*target) {
 	erp := sharedERP
 	U := len(universe)
 	n2 := vecCount(U, 2)
-	nr := c.Pick(200, 3000)
+	nr := c.Pick(200, 15000)
 	outcome := map[string]int64{}
 	for _, tg := range ts {
 		stream := "ecal-" + tg.name
@@ -797,7 +797,7 @@ func (h *harness) throughECAL(ts []*target) {
 			outcome[h.judgeECAL(erp, stream, i, tg, args)]++
 		}
 	}
-	nwf := c.Pick(600, 8000)
+	nwf := c.Pick(600, 40000)
 	for _, tg := range ts {
 		if !tg.gofn.IsValid() {
 			continue
